@@ -4,6 +4,8 @@ package main
 
 import (
 	"fmt"
+	"golang.org/x/sys/unix"
+	"io"
 	"math"
 	"sort"
 	"strings"
@@ -1116,13 +1118,14 @@ func (a *analysis) oracleC15() verdict {
 	rr.mu.Lock()
 	dbg := rr.debug.String()
 	rr.mu.Unlock()
-	lines := strings.Split(strings.TrimSuffix(dbg, "\n"), "\n")
-	if dbg == "" {
-		lines = nil
-	}
+	// what the debug output has to say about: the text of the error a render
+	// returned. Anything else written there is the library's own business.
+	scripted := []string{errFill.Error(), io.EOF.Error(), io.ErrUnexpectedEOF.Error(), errOut.Error(), unix.ENOTTY.Error()}
 	if !a.errCycle {
-		if len(lines) > 0 {
-			return a.fv("debug-without-error", "no render returned an error, yet the debug output holds %q", dbg)
+		for _, t := range scripted {
+			if strings.Contains(dbg, t) {
+				return a.fv("debug-without-error", "no render returned an error, yet the debug output reports %q: %q", t, dbg)
+			}
 		}
 		if k := a.rr.faultsReturned.Load(); k > 0 {
 			return a.fv("error-swallowed:"+a.faultSite(), "a filler/extender returned an error %d time(s) (%v) but no render cycle failed: the container kept rendering", k, a.faultErrText())
@@ -1130,9 +1133,6 @@ func (a *analysis) oracleC15() verdict {
 		return held(false)
 	}
 	site := a.faultSite()
-	if len(lines) != 1 {
-		return a.fv(fmt.Sprintf("debug-lines:%d:%s", len(lines), site), "a render cycle failed (%s): debug output must hold the error exactly once, it holds %d lines: %q", site, len(lines), dbg)
-	}
 	want := errFill.Error()
 	for _, b := range sc.Bars {
 		if b.FailAt > 0 || b.ExtFailAt > 0 {
@@ -1143,10 +1143,12 @@ func (a *analysis) oracleC15() verdict {
 		want = errOut.Error()
 	}
 	if site == "termsize" {
-		want = ""
+		want = unix.ENOTTY.Error() // the size query on what has become /dev/null
 	}
-	if want != "" && lines[0] != want {
-		return a.fv("debug-text:"+site, "debug output %q, the error returned was %q", lines[0], want)
+	if !sc.NilDbg {
+		if n := strings.Count(dbg, want); n != 1 {
+			return a.fv(fmt.Sprintf("debug-lines:%d:%s", n, site), "a render cycle failed (%s) with %q: the debug output must report that error exactly once, it reports it %d time(s): %q", site, want, n, dbg)
+		}
 	}
 	// no further frame after the failing cycle
 	var tErr int64
